@@ -85,6 +85,25 @@ M = [
   "                    if c.comp_idx as usize >= num_components {", "                    if c.comp_idx as usize > num_components {"),
  ("c01_spectral_selection_unchecked", "C01", "R-FIELDRANGE", "crates/jxl-jbr/src/reconstruct.rs",
   "                if si.ss > si.se {\n", "                if si.ss > 63 {\n"),
+ ("c01_consume_bits_wraps", "C01", "eof-is-error:consume_bits", "crates/jxl-bitstream/src/bitstream.rs",
+  "        self.remaining_buf_bits = self\n            .remaining_buf_bits\n            .checked_sub(n)\n            .ok_or(Error::Io(std::io::ErrorKind::UnexpectedEof.into()))?;\n        self.num_read_bits += n;",
+  "        self.remaining_buf_bits = self.remaining_buf_bits.wrapping_sub(n);\n        self.num_read_bits += n;"),
+ ("c04_special_distance_typo", "C04", "lz77-special-distances", "crates/jxl-coding/src/lib.rs",
+  "            [8, 4], [6, 7], [-6, 7], [7, 6], [-7, 6], [8, 5], [7, 7], [-7, 7], [8, 6], [8, 7],",
+  "            [8, 4], [6, 7], [-6, 7], [7, 6], [-7, 6], [8, 5], [7, 7], [-7, 7], [8, 7], [8, 6],"),
+ ("c04_final_state_constant", "C04", "state != 1245184", "crates/jxl-coding/src/lib.rs",
+  "                if state == 0x130000 {", "                if state == 0x13000 {"),
+ ("c04_lz77_write_mask", "C04", "window-masks", "crates/jxl-coding/src/lib.rs",
+  "        let offset = (state.num_decoded & 0xfffff) as usize;", "        let offset = (state.num_decoded & 0x7ffff) as usize;"),
+ ("c19_bt2100_green_typo", "C19", "primaries-bt2100", "crates/jxl-color/src/consts.rs",
+  "[[0.708, 0.292], [0.170, 0.797], [0.131, 0.046]]", "[[0.708, 0.292], [0.170, 0.787], [0.131, 0.046]]"),
+ ("c19_parse_whitepoint_rows_crossed", "C19", "icc-parse-whitepoint-table", "crates/jxl-color/src/icc/parse.rs",
+  "            (crate::consts::ILLUMINANT_DCI, WhitePoint::Dci),\n            (crate::consts::ILLUMINANT_E, WhitePoint::E),",
+  "            (crate::consts::ILLUMINANT_DCI, WhitePoint::E),\n            (crate::consts::ILLUMINANT_E, WhitePoint::Dci),"),
+ ("c16_scale_f_typo", "C16", "lf-scale-f", "crates/jxl-render/src/vardct/dct_common.rs",
+  "        0.9133480844001980,", "        0.9133840844001980,"),
+ ("c18_common_tags_order", "C18", "icc-common-tags", "crates/jxl-color/src/icc/decode.rs",
+  "b\"gTRC\", b\"bTRC\", b\"kTRC\", b\"chad\"", "b\"bTRC\", b\"gTRC\", b\"kTRC\", b\"chad\""),
  ("c09_eof_exit_without_carry", "C09", "return-without-carry", "crates/jxl-oxide/src/lib.rs",
   "                Err(e) if e.unexpected_eof() => {\n                    self.buffer = buf.to_vec();\n                    return Ok(());\n                }\n                Err(e) => {\n                    return Err(e.into());\n                }\n            };\n            let frame_index = frame.index();",
   "                Err(e) if e.unexpected_eof() => {\n                    return Ok(());\n                }\n                Err(e) => {\n                    return Err(e.into());\n                }\n            };\n            let frame_index = frame.index();"),
